@@ -16,6 +16,10 @@ def request(rng, close=False, big=False):
     for _ in range(rng.choice([0, 1, 2, 4])):
         hs.append(rng.choice([('X-A', '1'), ('X-A', 'two'), ('X-B', 'b' * rng.choice([1, 30])), ('X-Ctx', 'ctx%d' % rng.randrange(100)), ('Host', 'h.example'), ('accept', 'a/b'), ('Accept', 'c/d'),
                               ('Cookie', 'a=1; b=2'), ('Cookie', 'sid=1'), ('X-Eq', 'p=q&r=s=t'), ('x-lower', 'l'), ('User-Agent', 'u' * rng.choice([3, 200]))]))
+    if rng.random() < 0.12 and not close and not big:          # a client that sends custom headers only, not even Host (the standard-header table of the request stays empty)
+        hs = [rng.choice([('X-A', '1'), ('X-A', 'two'), ('X-B', 'b'), ('x-lower', 'l'), ('X-Ctx', 'ctx%d' % rng.randrange(100))]) for _ in range(rng.choice([1, 2, 3]))]
+        head = f'{rng.choice(["GET", "DELETE", "HEAD"])} {rng.choice(["/", "/a", "/a/b"])}{q} HTTP/1.1\r\n' + ''.join(f'{k}: {v}\r\n' for k, v in hs) + '\r\n'
+        return head.encode(), b''
     if rng.random() < 0.3:          # standard request headers, those about connection handling and body delivery among them
         hs.insert(rng.randrange(len(hs) + 1), rng.choice(STANDARD))
     if big: hs.append(('X-B', 'p' * rng.choice([600, 900])))
@@ -25,7 +29,7 @@ def request(rng, close=False, big=False):
         body = bytes(rng.randrange(256) for _ in range(n))
         if rng.random() < 0.25: body = b'\x00' + body[1:]
         if rng.random() < 0.1: body = b'GET / HTTP/1.1\r\n\r\n'[:n].ljust(n, b'x')       # a body that looks like a request
-        hs.insert(rng.randrange(len(hs) + 1), ('Content-Length', str(len(body))))
+        hs.insert(rng.randrange(len(hs) + 1), ('Content-Length', ('0' * rng.choice([1, 8, 12, 25]) if rng.random() < 0.08 else '') + str(len(body))))          # 1*DIGIT: any number of leading zeros
     if close:
         hs.append(('Connection', rng.choice(['close', 'Close'])))
         if rng.random() < 0.3: hs.insert(0, ('X-Scrub', '1'))          # the echo application's Scrub fang then removes `Connection` from the request after the handler
